@@ -160,6 +160,14 @@ def compare(core, ext, V, stats):
             groups.add(rid if not m else rid)
         ext_ids = set(r.get(SID) for r in te["rows"])
         for b in re_own:
+            # one row group per nested statement: the nested statements of one atomic statement are different statements,
+            # so no ID occurs twice among its reference cells
+            allrefs = [ref for k, v in b.items() if k.endswith(b"-Ref") for ref in v.split(b",") if ref]
+            if len(allrefs) != len(set(allrefs)):
+                dup = sorted(set(x for x in allrefs if allrefs.count(x) > 1))
+                V.violation("core-ext:extended-reference-shared-by-two-nested-statements", case, observed={"row": b.get(SID), "references": repr(allrefs[:8]), "twice": repr(dup[:3])},
+                            what="IG Extended: two different nested statements of one atomic statement are given the same ID (one row group for both)")
+                break
             for k, v in b.items():
                 if k.endswith(b"-Ref"):
                     for ref in v.split(b","):
